@@ -12,7 +12,7 @@ for pair in "a:$SA" "b:$SB"; do
   python3 - <<PY
 import json
 am=json.load(open('/tmp/mut/$P/_out/$x/meta.json'))
-m=dict(property="$P", summary=am.get("summary"), needs=am.get("needs"), ran=am.get("ran"), id="$id", batch=9,
+m=dict(property="$P", summary=am.get("summary"), needs=am.get("needs"), ran=am.get("ran"), id="$id", batch=10,
   confirmed_by_me=["vf/confirm_seed.sh in the scratch worktree: $res (demo passes on the clean tree, fails with the patch; the existing suite passes with the patch, known-flaky prm_so3ss excluded)",
                    "vf/seed_regress.py: patch applied in a scratch worktree, VERIF_REPO=<worktree> python3 vf/check.py $P"])
 json.dump(m, open('$d/meta.json','w'), indent=1)
